@@ -81,3 +81,18 @@ _mk('efficiency_wei_renumbered', None, None, [('at-least-two-nodes', 'n0 >= 2')]
                                           "assume(lemma_renumber(e1, efficiency_wei__e, p, n0))"})
 CONTRACTS['efficiency_wei_renumbered'].setup = _setup_w
 CONTRACTS['efficiency_wei_renumbered'].ghost_before = {'E2 = efficiency_wei(*': "Lp = inverse_lengths(Gp); check('length-specifications-are-renumberings-of-each-other', " + (_N2 % "Lp[v, w] == L[p[v], p[w]]") + "); assume(lemma_renumber(L, Lp, p, n0))"}
+
+# clustering_coef_bu (per-node vector): the coefficient of node x of the renumbered network is the coefficient of node p[x]
+from contracts import clustering_c09 as _c9
+from engine.pyvc.run import callee_from_clauses as _cfc2
+_CB = _c9.CONTRACTS['clustering_coef_bu']
+_CALLEES['clustering_coef_bu'] = _cfc2('clustering_coef_bu', ['G'], list(_CB.requires), [e for e in _CB.ensures if e[0] != 'argument-untouched'], [('vec', 'n0')], ghosts={'n0': 'len(G)'})
+c = Contract('corollary_src.renumbering', 'clustering_coef_bu_renumbered', ['G', 'p'], setup=_setup, requires=[_PERM],
+             ghost_after={'Gp = G[np.ix_(p, p)]': "assume(lemma_nbrsum_renumber(G, Gp, p, n0))",
+                          'C2 = clustering_coef_bu(*': "check('neighbour-pair-sums-and-degrees-are-renumbered', forall(lambda x: implies(inr(x, n0), And(inr(p[x], n0), nbrsum(Gp, x, n0) == nbrsum(G, p[x], n0), rcnt(Gp, x, n0) == rcnt(G, p[x], n0))))); "
+                                                       "check('first-result-read-at-the-renumbered-nodes', forall(lambda x: implies(inr(x, n0), C1[p[x]] == (nbrsum(G, p[x], n0) / (rcnt(G, p[x], n0) * rcnt(G, p[x], n0) - rcnt(G, p[x], n0)) if rcnt(G, p[x], n0) >= 2 else 0))))"},
+             ensures=[('clustering_coef_bu-of-the-renumbered-network-is-the-renumbered-vector', "forall(lambda x: implies(inr(x, n0), result(1)[x] == result(0)[p[x]]))")])
+c.source = SRC
+c.callees = _CALLEES
+c.nonlinear = 'uf'      # products and quotients of symbolic terms stay uninterpreted: both sides are built the same way, equality is by congruence
+CONTRACTS['clustering_coef_bu_renumbered'] = c
